@@ -88,9 +88,11 @@ def rule_eq(repo: Repo) -> RuleResult:
             return None, set()
         rel = {x for x in tr if x[0] in roots and any(s_ in ("attr:state_predicates", "attr:state_fluents") for s_ in x)}
         rs = {x[0] for x in rel}
+        # the names of local containers the content went through do not belong to the view
+        strip = lambda x: tuple(s_.split("@")[0] if s_.startswith("in:") else s_ for s_ in x[1:])
         if len(rs) != 1:
-            return (None if not rs else "both"), {x[1:] for x in rel}
-        return rs.pop(), {x[1:] for x in rel}
+            return (None if not rs else "both"), {strip(x) for x in rel}
+        return rs.pop(), {strip(x) for x in rel}
 
     for c in cmps:
         (ra, pa), (rb, pb) = view(c.left), view(c.comparators[0])
@@ -204,7 +206,7 @@ def rule_copy(repo: Repo, rid: str = "C14.copy") -> RuleResult:
     for cname, required, excluded in (
             ("GroundedPredicate", {"name", "signature", "object_mapping", "is_positive"}, {"is_masked": "learner-side flag, not part of a PDDL fact"}),
             ("PDDLFunction", {"name", "signature", "repeating_variables", "stored_value"}, {})):
-        m = repo.func(f"{cname}.copy")
+        m = L.fn(repo, f"{cname}.copy")
         p = L.prov(repo, m)
         ctors = [c for c in L.calls_in(m.node) if isinstance(c.func, ast.Name) and c.func.id == cname]
         r.site(m.qn)
@@ -214,38 +216,35 @@ def rule_copy(repo: Repo, rid: str = "C14.copy") -> RuleResult:
         src = F.constructed_field_sources(repo, m, ctors[0], cname)
         missing = []
         for fld in sorted(required):
-            exprs = src.get(fld, [])
+            names = {f"attr:{fld}"} | ({"attr:value"} if fld == "stored_value" else set())
             ok = False
-            for e in exprs:
-                for n in ast.walk(e):
-                    if isinstance(n, ast.Attribute) and n.attr == fld and isinstance(n.value, ast.Name) and n.value.id == m.self_name:
-                        ok = True
-                    if fld == "stored_value" and isinstance(n, ast.Attribute) and n.attr == "value" and isinstance(n.value, ast.Name) and n.value.id == m.self_name:
-                        ok = True
+            for e in src.get(fld, []):
+                try:
+                    tr = p.trace(e)
+                except KeyError:
+                    continue
+                if any(len(x) >= 2 and x[0] == "self" and x[1] in names for x in tr):
+                    ok = True
             if not ok:
                 missing.append(fld)
         if missing:
             r.fail(Finding(rid, m, f"field-not-copied:{'/'.join(missing)}", f"{cname}.copy does not initialise {missing} from the original"))
         else:
             r.ok({"class": cname, "fields_copied": sorted(required), "excluded": excluded})
-    # polarity: with is_negated=False the polarity is kept
-    m = repo.func("GroundedPredicate.copy")
+    # polarity: with is_negated=False the polarity is kept (the value handed to the constructor is self.is_positive itself, not its negation)
+    m = L.fn(repo, "GroundedPredicate.copy")
+    p = L.prov(repo, m)
     r.site(m.qn + " [polarity]")
     ctors = [c for c in L.calls_in(m.node) if isinstance(c.func, ast.Name) and c.func.id == "GroundedPredicate"]
     src = F.constructed_field_sources(repo, m, ctors[0], "GroundedPredicate").get("is_positive", []) if ctors else []
-    okpol = False
+    G = L.Guards(m, lambda e: "neg" if isinstance(e, ast.Name) and isinstance(e.ctx, ast.Load) and L.is_param(p, e, "is_negated") else None)
+    valn = {"neg": False}
+    okpol = bool(src)
     for e in src:
-        def val(x):
-            if isinstance(x, ast.Name) and x.id == "is_negated":
-                return False
-            return None
-        if isinstance(e, ast.IfExp):
-            t = C.eval3(e.test, val)
-            chosen = e.body if t is True else (e.orelse if t is False else None)
-        else:
-            chosen = e
-        if isinstance(chosen, ast.Attribute) and chosen.attr == "is_positive" and isinstance(chosen.value, ast.Name) and chosen.value.id == m.self_name:
-            okpol = True
+        v = G.value(valn, e)
+        kept = isinstance(v, ast.AST) and not isinstance(v, ast.UnaryOp) and p.trace(v, under=G.under(valn)) == {("self", "attr:is_positive")}
+        if not kept:
+            okpol = False
     if okpol:
         r.ok({"polarity_when_not_negated": "self.is_positive"})
     else:
